@@ -150,6 +150,17 @@ CHECKS = {
           "error positions compared with the extracted model, and the property checked directly on the implementation's output.", "DESIGN.md §6 C15"),
    note="Trusted: Coq kernel; extraction; glue (public Lexer API). C-locale character classes assumed.",
    technique="Coq proof (structural/fuelled recursion, prefix-position invariant) + extraction-based correspondence + direct positional oracle"),
+ "C16": dict(
+   level=("proof", "Coq theorems (axiom-free) on the reference checker for the classical core: it is compositional - a block, a statement list, a branch, a loop "
+          "body or header is accepted only if every part is accepted in the environment of its position - and at every leaf a final variable is never a legal "
+          "target (statement, nested assignment expression, postfix) and an undeclared name never typeable; with the operator soundness theorems of C07 the "
+          "type rules are the documented ones. The analyser is tied to the checker by differential acceptance on valid programs with one rule-directed edit at "
+          "a random position (type of any expression slot, variable swaps, final, declared/return types incl. void, return shape, repeated or moved "
+          "declarations, void calls used six ways, finals written six ways). The class-related rules (final fields, access, static/abstract, this/super, "
+          "null, @quantum/@shots, class compatibility) are not in the Coq checker: they are checked against the rule text by violating/repaired program "
+          "pairs across positions (partial).", "DESIGN.md §6 C16"),
+   note="Trusted: Coq kernel; extraction; glue; the pair corpus. Programs the surface syntax cannot express (Parse errors after mutation) are skipped.",
+   technique="Coq proof (compositionality of the checker) + extraction-based differential acceptance testing + rule-text pair corpus"),
  "C17": dict(
    level=("proof", "Coq theorems (axiom-free): a shot's table counts each scope exit once (a variable's counts sum to its number of exits, each "
           "outcome to its occurrences), tables are well-formed, the aggregate is the entry-wise sum of the per-shot tables for any number of shots, "
